@@ -118,14 +118,17 @@ local function e_leaf(kind, c, v)
   if kind == "recv" then
     return function(...) e_entered = true; e_a, e_b = ch:receive(); e_done = true end
   end
-  local case
+  local case, first
   if kind == "selrecv" then
     case = {"|<-", ch}
   elseif kind == "selrecvh" then
     case = {"|<-", ch, function(ok, x) e_hn = e_hn + 1; e_h1, e_h2 = ok, x end}
   elseif kind == "selrecvvh" then
-    case = {"|<-", ch, function(...) e_hn = e_hn + 1; e_hargs = select("#", ...); e_h1, e_h2 = ... end}
-  elseif kind == "selrecvfh" then
+    -- (handlers make no calls of their own: a handler that runs out of call stack in a nested call has received the value)
+    case = {"|<-", ch, function(...) e_hn = e_hn + 1; local a, b, c = ...; e_h1, e_h2 = a, b; if c == nil then e_hargs = 2 else e_hargs = 3 end end}
+  elseif kind == "selrecvfh" or kind == "sel2fh" then
+    -- sel2fh: the handler sits on the second case; the first one (channel 2, always empty) has none
+    if kind == "sel2fh" then first = {"|<-", CH[2]} end
     case = {"|<-", ch, function(ok, x)
       local l01,l02,l03,l04,l05,l06,l07,l08,l09,l10,l11,l12,l13,l14,l15,l16,l17,l18,l19,l20
       local m01,m02,m03,m04,m05,m06,m07,m08,m09,m10,m11,m12,m13,m14,m15,m16,m17,m18,m19,m20 = ok, x
@@ -138,9 +141,12 @@ local function e_leaf(kind, c, v)
   elseif kind == "selsendh" then
     case = {"<-|", ch, v, function(x) e_hn = e_hn + 1; e_h1 = x end}
   elseif kind == "selsendvh" then
-    case = {"<-|", ch, v, function(...) e_hn = e_hn + 1; e_hargs = select("#", ...); e_h1 = ... end}
+    case = {"<-|", ch, v, function(...) e_hn = e_hn + 1; local a, b = ...; e_h1 = a; if b == nil then e_hargs = 1 else e_hargs = 2 end end}
   else
     error("edge: unknown kind " .. tostring(kind))
+  end
+  if first then
+    return function(...) e_entered = true; e_a, e_b, e_c = channel.select(first, case); e_done = true end
   end
   return function(...) e_entered = true; e_a, e_b, e_c = channel.select(case); e_done = true end
 end
@@ -150,11 +156,13 @@ function op_at(kind, c, d, k, v)
   local issend = kind == "selsend" or kind == "selsendh" or kind == "selsendvh"
   if kind == "recv" then inv("recv", c)
   elseif issend then inv("select", {{"send", c, v}})
+  elseif kind == "sel2fh" then inv("select", {{"recv", 2}, {"recv", c}})
   else inv("select", {{"recv", c}}) end
   e_entered, e_done, e_a, e_b, e_c, e_hn, e_h1, e_h2, e_hargs = false, false, nil, nil, nil, 0, nil, nil, nil
   local ok, err = e_run(e_rec, d, k, e_leaf(kind, c, v))
   if ok and not e_done then ok, err = false, "edge: the leaf returned without completing the operation" end
   if not ok and e_done then err = "edge: error after the operation had completed: " .. tostring(err) end
+  if not ok and e_hn > 0 then err = "edge: error after the handler had been run: " .. tostring(err) end
   local name = "select"
   if kind == "recv" then name = "recv" end
   if not ok then
@@ -163,7 +171,7 @@ function op_at(kind, c, d, k, v)
     res("recv", true, e_a, e_b)
   else
     local hbad = false
-    if kind == "selrecvh" or kind == "selrecvfh" then hbad = not (e_hn == 1 and e_h1 == e_c and e_h2 == e_b)
+    if kind == "selrecvh" or kind == "selrecvfh" or kind == "sel2fh" then hbad = not (e_hn == 1 and e_h1 == e_c and e_h2 == e_b)
     elseif kind == "selrecvvh" then hbad = not (e_hn == 1 and e_hargs == 2 and e_h1 == e_c and e_h2 == e_b)
     elseif kind == "selsendh" then hbad = not (e_hn == 1 and e_h1 == v)
     elseif kind == "selsendvh" then hbad = not (e_hn == 1 and e_hargs == 1 and e_h1 == v)
@@ -175,32 +183,49 @@ function op_at(kind, c, d, k, v)
 end
 
 local e_next = 0
--- one sweep: for every k the depths around the edge; each operation is offered exactly one value
--- (receive kinds) or offers one (send kinds); after a failure the top level looks into the channel
-function e_sweep(kind, c, K, below, above)
+-- one operation at (d, k): it is offered exactly one value (receive kinds) or offers one (send
+-- kinds); after a failure the top level looks into the channel
+local function e_one(kind, issend, c, d, k)
+  e_next = e_next + 1
+  local v = e_next
+  local ok
+  if issend then
+    ok = op_at(kind, c, d, k, v)
+    op_select({{"recv", c}, {"default"}})
+  else
+    op_send(c, v)
+    ok = op_at(kind, c, d, k)
+    if not ok then op_select({{"recv", c}, {"default"}}) end
+  end
+  return ok
+end
+-- one sweep: for every k (one register per extra argument) walk down from the depth at which a bare
+-- leaf fails until the operation has worked twice in a row: every register height from beyond the
+-- limit down to where the operation has room is visited, whatever the frame sizes are.  skip: the
+-- first skip depths below the edge are not visited if the operation (a handler with a big frame)
+-- still fails there; if it does not, the walk starts over from the top.
+function e_sweep(kind, c, K, skip)
   local issend = kind == "selsend" or kind == "selsendh" or kind == "selsendvh"
   for k = 0, K - 1 do
     local dk = e_edge(k)
     if dk then
-      for d = math.max(0, dk - below), dk + above do
-        e_next = e_next + 1
-        local v = e_next
-        if issend then
-          op_at(kind, c, d, k, v)
-          op_select({{"recv", c}, {"default"}})
+      local d, sk, first, succ = dk - 1 - skip, skip, true, 0
+      while d >= 0 and succ < 2 do
+        local ok = e_one(kind, issend, c, d, k)
+        if first and ok and sk > 0 then
+          d, sk, succ = dk - 1, 0, 0
         else
-          op_send(c, v)
-          if not op_at(kind, c, d, k) then
-            op_select({{"recv", c}, {"default"}})
-          end
+          if ok then succ = succ + 1 else succ = 0 end
+          d = d - 1
         end
+        first = false
       end
     end
   end
 end
 `
 
-var edgeKinds = []string{"recv", "selrecv", "selrecvh", "selrecvvh", "selrecvfh", "selrecvgh", "selsend", "selsendh", "selsendvh"}
+var edgeKinds = []string{"recv", "selrecv", "selrecvh", "selrecvvh", "selrecvfh", "sel2fh", "selrecvgh", "selsend", "selsendh", "selsendvh"}
 
 // history steps; the first group raises an error while the registry is completely full
 var edgeHistFull = []string{"byte", "unpack", "deepbyte", "gsub", "xpcall", "codie"}
@@ -213,7 +238,6 @@ type edgeParams struct {
 	InCo    bool
 	Ctx     bool
 	K       int
-	Below   int
 	Cap     int
 }
 
@@ -234,11 +258,12 @@ func edgeScript(p edgeParams) string {
 			fmt.Fprintf(&b, "e_history(%q)\n", p.History[i])
 		}
 		kind := p.Kinds[i%len(p.Kinds)]
-		below := p.Below
-		if kind == "selrecvfh" {
-			below += 8 // the handler's frame alone is 40 registers
+		skip := 0
+		if (kind == "selrecvfh" || kind == "sel2fh") && p.Opts.RegSize < 5120 {
+			// the handler's frame alone is 40 registers (about 9 frames of the recursion)
+			skip = 8
 		}
-		fmt.Fprintf(&b, "e_sweep(%q, 1, %d, %d, 0)\n", kind, p.K, below)
+		fmt.Fprintf(&b, "e_sweep(%q, 1, %d, %d)\n", kind, p.K, skip)
 	}
 	b.WriteString("op_close(1)\nop_recv(1)\n")
 	return b.String()
@@ -246,7 +271,7 @@ func edgeScript(p edgeParams) string {
 
 func edgeJob(p edgeParams) Job {
 	o := p.Opts
-	return Job{Kind: "hist", Hist: &HistSpec{Class: "edge", Caps: []int{p.Cap}, Procs: 2, TimeoutMs: 60000,
+	return Job{Kind: "hist", Hist: &HistSpec{Class: "edge", Caps: []int{p.Cap, 1}, Procs: 2, TimeoutMs: 60000,
 		Threads: []ThreadSpec{{Role: "edge", Script: edgeScript(p), Ctx: p.Ctx, Opts: &o, Edge: true}}}}
 }
 
@@ -265,7 +290,7 @@ func genEdgeOpts(r *lib.Rand) StateOpts {
 }
 
 func genEdge(r *lib.Rand) Job {
-	p := edgeParams{Opts: genEdgeOpts(r), InCo: r.Chance(30), Ctx: r.Chance(40), K: 8, Below: 5, Cap: r.Range(1, 3)}
+	p := edgeParams{Opts: genEdgeOpts(r), InCo: r.Chance(30), Ctx: r.Chance(40), K: 7, Cap: r.Range(1, 3)}
 	if p.Opts.RegSize >= 5120 {
 		p.K = 2 // the call stack decides: the register height does not matter
 	}
@@ -291,14 +316,14 @@ func genEdge(r *lib.Rand) Job {
 func edgeCorpus() []Job {
 	return []Job{
 		edgeJob(edgeParams{Kinds: []string{"recv", "selrecv", "recv"}, History: []string{"rec", "byte", "unpack"},
-			Opts: StateOpts{RegSize: 256, CallStack: 1024}, K: 8, Below: 5, Cap: 1}),
-		edgeJob(edgeParams{Kinds: []string{"selrecvh", "selrecvvh", "selrecvfh"}, History: []string{"byte", "gsub", "errobj"},
-			Opts: StateOpts{RegSize: 200, RegMax: 333, Grow: 7, CallStack: 1024}, K: 8, Below: 5, Cap: 2, Ctx: true}),
+			Opts: StateOpts{RegSize: 256, CallStack: 1024}, K: 7, Cap: 1}),
+		edgeJob(edgeParams{Kinds: []string{"selrecvh", "sel2fh", "selrecvvh", "selrecvfh"}, History: []string{"byte", "gsub", "errobj", "grow"},
+			Opts: StateOpts{RegSize: 200, RegMax: 333, Grow: 7, CallStack: 1024}, K: 7, Cap: 2, Ctx: true}),
 		edgeJob(edgeParams{Kinds: []string{"selsend", "selsendh", "selsendvh"}, History: []string{"unpack", "codie", "sort"},
-			Opts: StateOpts{RegSize: 192, CallStack: 1024}, K: 8, Below: 5, Cap: 1}),
+			Opts: StateOpts{RegSize: 192, CallStack: 1024}, K: 7, Cap: 1}),
 		edgeJob(edgeParams{Kinds: []string{"recv", "selrecvgh", "selrecvh"}, History: []string{"byte", "coyield", "xpcall"},
-			Opts: StateOpts{RegSize: 256, CallStack: 1024}, InCo: true, K: 8, Below: 5, Cap: 1}),
+			Opts: StateOpts{RegSize: 256, CallStack: 1024}, InCo: true, K: 7, Cap: 1}),
 		edgeJob(edgeParams{Kinds: []string{"selrecvh", "selsendh", "selrecvvh"}, History: []string{"rec", "fat", "selnone"},
-			Opts: StateOpts{RegSize: 5120, CallStack: 40}, K: 2, Below: 5, Cap: 1}),
+			Opts: StateOpts{RegSize: 5120, CallStack: 40}, K: 2, Cap: 1}),
 	}
 }
